@@ -663,3 +663,30 @@ def pruneAlt (tbl : LeafDec) : List (List String × Schema) → J → J
 end
 
 end Goag.JsonM
+
+namespace Goag.JsonM
+
+/-! ### known-finding class KF-C06-embeddedAddl -/
+
+mutual
+/-- some allOf (at any depth) has a member given by reference whose schema declares additionalProperties -/
+def hasEmbeddedAddl : Schema → Bool
+  | .prim _ _ => false
+  | .any => false
+  | .arr items _ => hasEmbeddedAddl items
+  | .obj fields addl _ => fieldsEmbeddedAddl fields || (match addl with | some a => hasEmbeddedAddl a | none => false)
+  | .allOf members => membersEmbeddedAddl members
+  | .oneOf alts _ => altsEmbeddedAddl alts
+def fieldsEmbeddedAddl : List (String × Bool × Schema) → Bool
+  | [] => false
+  | (_, _, s) :: fs => hasEmbeddedAddl s || fieldsEmbeddedAddl fs
+def membersEmbeddedAddl : List (Bool × Schema) → Bool
+  | [] => false
+  | (isRef, s) :: ms =>
+    (isRef && (match s with | .obj _ (some _) _ => true | _ => false)) || hasEmbeddedAddl s || membersEmbeddedAddl ms
+def altsEmbeddedAddl : List (List String × Schema) → Bool
+  | [] => false
+  | (_, s) :: rest => hasEmbeddedAddl s || altsEmbeddedAddl rest
+end
+
+end Goag.JsonM
